@@ -3330,3 +3330,6 @@ mod tests {
         test_case!(filter {} => true);
     }
 }
+
+#[cfg(kani)]
+pub(crate) mod verif_kani;
